@@ -12,6 +12,7 @@ use hifitime::{Epoch, TimeScale};
 const TT_NS: i128 = 32_184_000_000;
 const FORM_TOL: i128 = 30;
 const RT_TOL: i128 = 20;
+const JD_J2000_NS: i128 = 2_451_545 * NS_DAY;
 const SRC: [TimeScale; 6] = [TimeScale::TAI, TimeScale::TT, TimeScale::GPST, TimeScale::QZSST, TimeScale::GST, TimeScale::BDT];
 
 /// forward direction: source epoch (uniform scale) -> ET and TDB, closed forms, round trips
@@ -25,14 +26,15 @@ pub fn j_forward(src: TimeScale, tai: i128, next_tai: Option<i128>, m: &EtDb, ou
         let et_back = et.to_time_scale(src);
         let tdb_back = tdb.to_time_scale(src);
         let acc = (alpha(e.to_et_duration()), alpha(e.to_tdb_duration()), e.to_et_seconds(), e.to_tdb_seconds());
+        let jde = (alpha(e.to_jde_et_duration()), alpha(e.to_jde_tdb_duration()));
         let nxt = next_tai.map(|n| {
             let e2 = Epoch::from_duration(mk(n - scales::zero_tai(src).unwrap()), src);
             (alpha(e2.to_time_scale(TimeScale::ET).duration), alpha(e2.to_time_scale(TimeScale::TDB).duration))
         });
-        (et, tdb, et_back, tdb_back, acc, nxt)
+        (et, tdb, et_back, tdb_back, acc, nxt, jde)
     });
     match r {
-        Ok((et, tdb, et_back, tdb_back, acc, nxt)) => {
+        Ok((et, tdb, et_back, tdb_back, acc, nxt, jde)) => {
             let (a_et, a_tdb) = (alpha(et.duration), alpha(tdb.duration));
             if et.time_scale != TimeScale::ET || tdb.time_scale != TimeScale::TDB {
                 out.viol("c07.forward", "scale-label-wrong".into(), args, "ET / TDB".into(), format!("{} / {}", scale_name(et.time_scale), scale_name(tdb.time_scale)));
@@ -71,13 +73,18 @@ pub fn j_forward(src: TimeScale, tai: i128, next_tai: Option<i128>, m: &EtDb, ou
                 out.viol("c07.forward", "accessor-differs-from-to_time_scale".into(), args, format!("{a_et} / {a_tdb}"), format!("{acc:?}"));
                 return;
             }
+            // the Julian-date accessors count from JD 0: J2000 noon is JD 2451545.0 in the scale itself
+            if jde.0 != a_et + JD_J2000_NS || jde.1 != a_tdb + JD_J2000_NS {
+                out.viol("c07.forward", "jde-accessor-differs-from-to_time_scale".into(), args, format!("{} / {}", a_et + JD_J2000_NS, a_tdb + JD_J2000_NS), format!("{jde:?}"));
+                return;
+            }
             if let (Some(n), Some((n_et, n_tdb))) = (next_tai, nxt) {
                 if n - tai > 100 && (n_et <= a_et || n_tdb <= a_tdb) {
                     out.viol("c07.order", format!("not-increasing,{}", scale_name(src)), args, format!("instants {} ns apart keep their order", n - tai), format!("ET {a_et} -> {n_et}, TDB {a_tdb} -> {n_tdb}"));
                     return;
                 }
             }
-            out.ok(8, true, (src as u64) | (((p_et > 0) as u64) << 4) | (((p_tdb > 0) as u64) << 5) | ((tai < J2000_TAI) as u64) << 6);
+            out.ok(10, true, (src as u64) | (((p_et > 0) as u64) << 4) | (((p_tdb > 0) as u64) << 5) | ((tai < J2000_TAI) as u64) << 6);
             if out.want_sample(true) {
                 out.sample("c07.forward", args, format!("ET-TAI-32.184s = {p_et} ns (err {err_et}), TDB: {p_tdb} ns (err {err_tdb}), round trips {rt_et}/{rt_tdb} ns"), true);
             }
@@ -127,6 +134,46 @@ pub fn j_reverse(which: TimeScale, c: i128, dst: TimeScale, m: &EtDb, out: &mut 
     }
 }
 
+/// ET <-> TDB directly: a count read as ET (TDB) converted to TDB (ET) must satisfy the other scale's closed form at
+/// the TAI instant the implementation itself assigns to the source (judged by c07.reverse within FORM_TOL), hence 2 x FORM_TOL
+pub fn j_cross(which: TimeScale, c: i128, m: &EtDb, out: &mut Local) {
+    let other = if which == TimeScale::ET { TimeScale::TDB } else { TimeScale::ET };
+    let args = vec![scale_name(which).to_string(), enc(c)];
+    let e = Epoch::from_duration(mk(c), which);
+    let r = guard(|| {
+        let x = e.to_time_scale(other);
+        let tai = e.to_time_scale(TimeScale::TAI);
+        let acc = if other == TimeScale::TDB { (e.to_tdb_duration(), e.to_jde_tdb_duration()) } else { (e.to_et_duration(), e.to_jde_et_duration()) };
+        let own = if which == TimeScale::TDB { (e.to_tdb_duration(), e.to_jde_tdb_duration()) } else { (e.to_et_duration(), e.to_jde_et_duration()) };
+        (x, tai, acc, own)
+    });
+    match r {
+        Ok((x, tai, acc, own)) => {
+            let a = alpha(x.duration);
+            let per = if other == TimeScale::ET { m.et_periodic(a as f64 / 1e9) } else { m.tdb_periodic(a as f64 / 1e9) };
+            let p = (per * 1e9).round() as i128;
+            let err = (a - (alpha(tai.duration) - J2000_TAI)) - (TT_NS + p);
+            out.metric_max(&format!("{}_to_{}_closed_form_max_err_ns", scale_name(which), scale_name(other)), err.abs() as f64);
+            let mag = |e: i128| if e.abs() > 1_000_000 { "gross(>1ms)" } else if e.abs() > 1000 { "us" } else { "ns" };
+            if x.time_scale != other {
+                out.viol("c07.cross", "scale-label-wrong".into(), args, scale_name(other).into(), scale_name(x.time_scale).into());
+            } else if err.abs() > 2 * FORM_TOL {
+                out.viol("c07.cross", format!("{}->{},closed-form,{}", scale_name(which), scale_name(other), mag(err)), args, format!("within {} ns of the {} closed form at the instant's TAI", 2 * FORM_TOL, scale_name(other)), format!("error {err} ns"));
+            } else if alpha(acc.0) != a || alpha(acc.1) != a + JD_J2000_NS {
+                out.viol("c07.cross", "accessor-differs-from-to_time_scale".into(), args, format!("{a} / {}", a + JD_J2000_NS), format!("{} / {}", alpha(acc.0), alpha(acc.1)));
+            } else if alpha(own.0) != c || alpha(own.1) != c + JD_J2000_NS {
+                out.viol("c07.cross", "own-scale-accessor-not-identity".into(), args, format!("{c} / {}", c + JD_J2000_NS), format!("{} / {}", alpha(own.0), alpha(own.1)));
+            } else {
+                out.ok(6, true, (which as u64) | ((p > 0) as u64) << 4 | ((err > 0) as u64) << 5);
+                if out.want_sample(true) {
+                    out.sample("c07.cross", args, format!("{} count {a}, error {err} ns", scale_name(other)), true);
+                }
+            }
+        }
+        Err(p) => out.viol("c07.cross", format!("panic:{}", p.class()), args, "no panic".into(), format!("{} {}", p.loc, p.msg)),
+    }
+}
+
 pub fn j_zero(which: TimeScale, out: &mut Local) {
     let r = guard(|| (format!("{}", which.reference_epoch()), format!("{}", Epoch::from_duration(mk(0), which)), alpha(which.reference_epoch().duration)));
     let want = format!("2000-01-01T12:00:00 {}", scale_name(which));
@@ -152,7 +199,7 @@ pub fn run(rep: &mut Report) {
     let n = (2 * kmax + 1) as u64;
     rep.bound("phase_lattice", format!("J2000 + k*{} s, |k| <= {kmax}, sub-offsets {{0, 1 ns, 1/2 s}} : {} instants", delta / NS_S, 3 * n));
     rep.bound("tolerances_ns", format!("closed form {FORM_TOL}, round trip {RT_TOL}, order preserved beyond 100"));
-    rep.rule = "phase lattice over +-10 000 Julian years (step coprime with the anomalistic year) x 3 sub-second offsets, plus the epoch lattice EL(TAI) within the span; forward from TAI on every point and from TT/GPST/QZSST/GST/BDT on every 8th; the same counts read as ET and as TDB for the reverse direction into 6 scales (every 8th for non-TAI); consecutive lattice points checked for order preservation. Oracle: the two closed forms in f64 with K, EB, M0, M1 parsed from naif0012.txt and the ESA constants of the statement, compared in integer nanoseconds at the output's own t. Every instant is non-trivial (the error depends on the phase of the sine); maximum observed errors are reported.".into();
+    rep.rule = "phase lattice over +-10 000 Julian years (step coprime with the anomalistic year) x 3 sub-second offsets, plus the epoch lattice EL(TAI) within the span; forward from TAI on every point and from TT/GPST/QZSST/GST/BDT on every 8th; the same counts read as ET and as TDB for the reverse direction into 6 scales (every 8th for non-TAI); consecutive lattice points checked for order preservation; ET<->TDB directly on the same counts (c07.cross), and the to_jde_et/tdb_duration accessors against to_time_scale. Oracle: the two closed forms in f64 with K, EB, M0, M1 parsed from naif0012.txt and the ESA constants of the statement, compared in integer nanoseconds at the output's own t. Every instant is non-trivial (the error depends on the phase of the sine); maximum observed errors are reported.".into();
     rep.assumptions = vec!["platform libm sin() on both sides of the comparison; the oracle's own rounding is below 1 ns at these magnitudes".into(), "constants K, EB, M0, M1 read from /repo/naif0012.txt (cross-checked against the values 1.657e-3, 1.671e-2, 6.239996, 1.99096871e-7 in the oracle self-test)".into()];
     let subs = [0i128, 1, NS_S / 2];
     sweep(rep, "c07.forward[TAI]", 3 * n, |i, out| {
@@ -184,7 +231,12 @@ pub fn run(rep: &mut Report) {
             let dst = if i % 8 == 0 { SRC[((i / 8) % 6) as usize] } else { TimeScale::TAI };
             j_reverse(which, c, dst, &m, out)
         });
+        sweep(rep, &format!("c07.cross[{}]", scale_name(which)), 3 * n, |i, out| {
+            let k = (i / 3) as i128 - kmax;
+            j_cross(which, k * delta + subs[(i % 3) as usize], &m, out)
+        });
         let elr: Vec<i128> = el.iter().map(|t| t - J2000_TAI).collect();
+        sweep(rep, &format!("c07.cross[{},EL]", scale_name(which)), elr.len() as u64, |i, out| j_cross(which, elr[i as usize], &m, out));
         sweep(rep, &format!("c07.reverse[{},EL]", scale_name(which)), elr.len() as u64 * 6, |i, out| j_reverse(which, elr[(i / 6) as usize], SRC[(i % 6) as usize], &m, out));
     }
     sweep(rep, "c07.zero", 2, |i, out| j_zero([TimeScale::ET, TimeScale::TDB][i as usize], out));
@@ -203,6 +255,7 @@ pub fn replay(check: &str, a: &[String], out: &mut Local) -> bool {
             }
         }
         "c07.reverse" => j_reverse(scale_from(&a[0]), p128(&a[1]), scale_from(&a[2]), &m, out),
+        "c07.cross" => j_cross(scale_from(&a[0]), p128(&a[1]), &m, out),
         "c07.zero" => j_zero(scale_from(&a[0]), out),
         _ => return false,
     }
